@@ -97,9 +97,14 @@ func NewCron(db *bolt.DB, partitions int, maxJitter time.Duration, ttl time.Dura
 	return c, nil
 }
 
+// Jitter returns a random duration in [0, MaxJitter).
+//
+// Never negative: a job that ran before its occurrence would be
+// scheduled for that same occurrence again (set computes the next
+// occurrence from the current time) and run twice for it.
 func (c *Cron) Jitter() time.Duration {
 	max := float64(c.MaxJitter)
-	d := time.Duration(rand.Float64()*max - max/2)
+	d := time.Duration(rand.Float64() * max)
 	log.Printf("Cron.Jitter %v", d)
 	return d
 }
